@@ -294,7 +294,7 @@ def _merge(total, st):
 
 
 def correspondence(ctx):
-    n_hist = ctx.budget(14, 160)
+    n_hist = ctx.budget(20, 160)
     steps = ctx.budget(60, 90)
     disagreements = []
     total = 0
@@ -1265,7 +1265,7 @@ def known_case(ctx):
 
 
 def oracle(ctx, broken, hints):
-    n = ctx.budget(4, 40) * (4 if broken else 1)
+    n = ctx.budget(6, 40) * (4 if broken else 1)
     trials = ctx.budget(14, 24)
     failures = []
     evals = 0
